@@ -11,6 +11,7 @@
  * No interpretation of the bytes happens here: the strict parser is the Lean driver. */
 #include "sess.h"
 #include <rfb/rfbregion.h>
+#include <signal.h>
 
 extern void (*rfbVerifPreEncodeHook)(rfbClientPtr, sraRegionPtr, sraRegionPtr, int, int);
 
@@ -54,6 +55,25 @@ static void do_resize(int w, int h) {
   rfbNewFramebuffer(scr, fb, w, h, scrBpp == 2 ? 5 : 8, scrBpp == 1 ? 1 : 3, scrBpp);
   free(old); scrW = w; scrH = h;
 }
+/* ExtDesktopSize screen list as an application may report it: n screens side by side; the hook fails
+ * from index ext_fail_from on (application error path of rfbSendExtDesktopSize) */
+static int ext_screens = 1, ext_fail_from = -1;
+static int ext_count_hook(rfbClientPtr cl) { (void)cl; return ext_screens; }
+static rfbBool ext_get_hook(int i, rfbExtDesktopScreen *s, rfbClientPtr cl) {
+  if (ext_fail_from >= 0 && i >= ext_fail_from) return FALSE;
+  s->id = (uint32_t)(i + 1); s->x = (uint16_t)(i * 3); s->y = 0;
+  s->width = (uint16_t)cl->scaledScreen->width; s->height = (uint16_t)cl->scaledScreen->height; s->flags = 0;
+  return TRUE;
+}
+
+/* a protocol extension without any wire effect: exercises the `init` loop that runs between the
+ * ServerInit write and the switch to RFB_NORMAL */
+static int ext_init_result = 1;
+static rfbBool pe_new(rfbClientPtr cl, void **data) { (void)cl; *data = NULL; return TRUE; }
+static rfbBool pe_init(rfbClientPtr cl, void *data) { (void)cl; (void)data; return ext_init_result; }
+static rfbProtocolExtension pe = { pe_new, pe_init, NULL, NULL, NULL, NULL, NULL, NULL, NULL };
+static int pe_registered = 0;
+
 static int setds_hook(int w, int h, int n, rfbExtDesktopScreen *e, rfbClientPtr cl) {
   (void)n; (void)e; (void)cl;
   if (setds_result == 0 && w > 0 && h > 0) do_resize(w, h);
@@ -169,7 +189,8 @@ static void set_cursor(int w, int h, int xhot, int yhot, int rich, uint64_t seed
   c->foreRed = c->foreGreen = c->foreBlue = 0xffff;
   c->mask = (unsigned char *)calloc((size_t)rb * h + 1, 1);
   for (i = 0; i < rb * h; i++) c->mask[i] = (unsigned char)(vh_rand() | 1);
-  if (rich) {
+  if (rich == 2) c->mask[0] = 0;        /* with w = h = 1: the library's "no cursor" convention */
+  if (rich == 1) {
     c->cleanupRichSource = TRUE;
     c->richSource = (unsigned char *)calloc((size_t)w * h * scrBpp + 1, 1);
     for (i = 0; i < w * h * scrBpp; i++) c->richSource[i] = (unsigned char)vh_rand();
@@ -185,6 +206,7 @@ int main(void) {
   char *line, *tok[4200];
   static unsigned char buf[1 << 16], hx[1 << 20];
   rfbVerifPreEncodeHook = hook;
+  signal(SIGPIPE, SIG_IGN);
   while ((line = vh_readline())) {
     int n = vh_split(line, tok, 4200);
     if (n == 0 || tok[0][0] == '#') continue;
@@ -213,6 +235,14 @@ int main(void) {
         if (l >= 0) { hx[l] = 0; rfbSetServerVersionIdentity(scr, "%s", (char *)hx); }
       } else if (!strcmp(k, "protominor")) rfbSetProtocolVersion(scr, 3, v);
       else if (!strcmp(k, "shared")) { scr->alwaysShared = v; }
+      else if (!strcmp(k, "extscreens")) {
+        ext_screens = v; scr->numberOfExtDesktopScreensHook = ext_count_hook; scr->getExtDesktopScreenHook = ext_get_hook;
+      } else if (!strcmp(k, "extfail")) {
+        ext_fail_from = v; scr->numberOfExtDesktopScreensHook = ext_count_hook; scr->getExtDesktopScreenHook = ext_get_hook;
+      } else if (!strcmp(k, "ext")) {
+        ext_init_result = v == 2 ? 0 : 1;
+        if (v && !pe_registered) { rfbRegisterProtocolExtension(&pe); pe_registered = 1; }
+      }
       else puts("bad-op");
     } else if (!strcmp(tok[0], "conn") && n == 3) {
       int id = atoi(tok[1]); char pv[16];
@@ -233,6 +263,10 @@ int main(void) {
       }
     } else if (!strcmp(tok[0], "cinit") && n == 3) {
       buf[0] = (unsigned char)atoi(tok[2]); csend(atoi(tok[1]), buf, 1);
+    } else if (!strcmp(tok[0], "cinitclose") && n == 2) {
+      /* ClientInit, then the peer vanishes before the server can write ServerInit */
+      int id = atoi(tok[1]);
+      if (live(id)) { buf[0] = 1; csend(id, buf, 1); close(conns[id].peer); conns[id].peer = -1; }
     } else if (!strcmp(tok[0], "setpf") && n == 12) {
       memset(buf, 0, 20); buf[0] = rfbSetPixelFormat;
       buf[4] = atoi(tok[2]); buf[5] = atoi(tok[3]); buf[6] = atoi(tok[4]); buf[7] = atoi(tok[5]);
